@@ -12,13 +12,23 @@ RULE = ("operation sequences (set_field, e[k]=v, pop, del e[k]; then a probe blo
         "(twin built from list(e.fields), a Field placed in two entries, a Field moved over with other.set_field(e.get(k))): "
         "all mutator sequences to depth 2 / 3 over both entries from five sharing set-ups and random programs to depth 25, "
         "every entry compared with its own reference dict after every step, and every Field object ever stored or handed "
-        "out keeps the content it had (a dict does not alter the objects stored in it). distinct = distinct (start "
+        "out keeps the content it had (a dict does not alter the objects stored in it); stored objects of unusual types: "
+        "instances of Field subclasses that are sized containers (__len__, empty = falsy), define __bool__ as False, compare "
+        "equal to everything / to nothing (__eq__, __hash__), or raise from __bool__/__len__/__eq__/__hash__ (a dict never "
+        "asks the objects stored in it for their truth value, length, equality or hash; presence is decided by the key "
+        "alone), and falsy values 0 / False / [] / '' / None: all mutator sequences to depth 2 / 3 from three start "
+        "entries made of such objects and random programs as above, which also edit the list handed out by e.fields "
+        "(append, insert, replace, delete, reverse) or assign e.fields, after which fields_dict, items(), get, in and [] must describe "
+        "exactly what e.fields shows. distinct = distinct (start "
         "entry, operation list) or (block, perturbation); non-trivial = at least one call replaces, removes or misses an "
         "existing key (several entries: a key whose Field object is also held by another entry), or the pair differs in "
-        "exactly one attribute / is a copy")
+        "exactly one attribute / is a copy; odd streams: an operation addresses a key bound to an object of a Field subclass, or "
+        "the caller edits e.fields")
 TRUSTED = ["field identity is observed through unique start_line tags given to every Field the harness creates",
            "the several-entries streams have no counterpart in the Coq model (the model has no object identity across "
            "entries): they are judged by the Python oracle alone",
+           "Field subclasses overriding __len__/__bool__/__eq__/__hash__ and direct edits of the list handed out by "
+           "e.fields have no counterpart in the Coq model either (odd-* streams, Python oracle alone)",
            "values containing dicts or foreign objects are outside the executable equality model (skipped for the model "
            "comparison, still checked by the Python oracle)"]
 ASSUMPTIONS = ["str keys; CPython dict preserves insertion order (the reference mapping of the oracle is a dict)"]
@@ -84,6 +94,15 @@ def generate(rng, tier):
             for combo in itertools.product(alpha, repeat=d):
                 steps = [["op", t, mk_op(c, k, i)] for i, (t, c, k) in enumerate(combo)]
                 cases.append({"stream": "multi-exh", "input": {"multi": name, "entries": ents, "steps": setup + steps}})
+    # 0b. entries made of Field objects of unusual types (see field_class): all mutator sequences on one entry
+    okeys = ["a", "A", "b"]
+    oalpha = ([(O_SETFIELD, k, kind) for k in okeys for kind in ("sized", "strict", "eqall")]
+              + [(c, k, None) for c in (O_SETITEM, O_POP, O_DEL) for k in okeys])
+    for d in range(1, (2 if quick else 3) + 1):
+        for name, ents in ODD_SETUPS:
+            for combo in itertools.product(oalpha, repeat=d):
+                steps = [["op", 0, odd_op(c, k, i, kind)] for i, (c, k, kind) in enumerate(combo)]
+                cases.append({"stream": "odd-exh", "input": {"multi": name, "entries": ents, "steps": steps}})
     # 1. all mutator sequences, probes at the end
     for si, st in enumerate(START if not quick else START[1:]):
         for ops in seqs(mut16, 3 if quick else 4):
@@ -136,6 +155,8 @@ def generate(rng, tier):
     cases += eq_cases(rng, tier)
     # 6. random programs over several entries that hold the same Field objects
     cases += multi_random(rng, tier)
+    # 7. the same with Field objects of unusual types, falsy values and direct edits of the list handed out by e.fields
+    cases += multi_random(rng, tier, odd=True)
     return cases
 
 
@@ -153,11 +174,90 @@ SHARED_SETUPS = [
 ]
 MULTI_PARSED_POOL = ["author", "Title", "title", "year", "a", "A", "ab"]
 
+# Field objects of unusual types.  A field spec / a set_field operation may carry a kind as last element; the object
+# is then an instance of a subclass of Field (see field_class).  The reference of the property is a dict key -> object:
+# a dict decides presence by the key alone and never asks a stored object for its truth value, length, equality or hash.
+ODD_KINDS = ["sized", "false", "eqall", "eqnone", "strict"]
+ODD_SETUPS = [
+    ("odd-falsy", [{"type": "book", "key": "k2", "fields": [["a", {"list": []}, 1, "sized"], ["b", "y", 2], ["A", "q", 3, "false"]]}]),
+    ("odd-eq", [{"type": "misc", "key": "k3", "fields": [["a", "x", 1, "eqall"], ["b", "y", 2, "eqall"], ["A", "x", 1, "eqnone"]]}]),
+    ("odd-strict", [{"type": "article", "key": "k1", "fields": [["A", {"list": ["p"]}, 1, "sized"], ["a", "", 2, "strict"],
+                                                                 ["b", {"int": 0}, 3]]}]),
+]
+ODD_VALS = [{"int": 0}, {"bool": False}, {"list": []}, "", None, "0", " "]
 
-def multi_random(rng, tier):
+
+def odd_op(code, k, n, kind):
+    op = mk_op(code, k, n)
+    if code == O_SETFIELD and kind:
+        if kind == "sized":
+            op[2] = {"list": []} if n % 2 == 0 else {"list": ["x%d" % n]}
+        op.append(kind)
+    elif code == O_SETITEM and n % 2:
+        op[2] = ODD_VALS[n % len(ODD_VALS)]
+    return op
+
+
+_FIELD_CLASSES = {}
+
+
+def field_class(kind):
+    """Field, or the subclass of Field named by kind."""
+    from bibtexparser.model import Field
+    if not _FIELD_CLASSES:
+        def refuse(self, *a):
+            raise TypeError("a mapping has no business asking a stored object for this")
+
+        class SizedField(Field):
+            """a list-valued field that is a sized container, like the value it wraps"""
+            def __len__(self):
+                return len(self.value) if hasattr(self.value, "__len__") else 0
+
+            def __iter__(self):
+                return iter(self.value)
+
+        class FalseField(Field):
+            def __bool__(self):
+                return False
+
+        class EqAllField(Field):
+            def __eq__(self, other):
+                return True
+
+            def __ne__(self, other):
+                return False
+
+            def __hash__(self):
+                return 0
+
+        class EqNoneField(Field):
+            def __eq__(self, other):
+                return False
+
+            def __ne__(self, other):
+                return True
+
+            __hash__ = None
+
+        class StrictField(Field):
+            __bool__ = __len__ = __eq__ = __ne__ = __hash__ = __iter__ = refuse
+
+        _FIELD_CLASSES.update({None: Field, "plain": Field, "sized": SizedField, "false": FalseField, "eqall": EqAllField,
+                               "eqnone": EqNoneField, "strict": StrictField})
+    return _FIELD_CLASSES[kind]
+
+
+def mk_field(spec):
+    """[key, value, line] or [key, value, line, kind]"""
+    return field_class(spec[3] if len(spec) > 3 else None)(spec[0], unjv(spec[1]), spec[2])
+
+
+def multi_random(rng, tier, odd=False):
     cases = []
     quick = tier == "quick"
     vals = ["s", "", {"int": 3}, {"list": ["x", "y"]}, None, {"bool": True}, "\u00df"]
+    if odd:
+        vals = vals + ODD_VALS
     for i in range(300 if quick else 10000):
         parsed = i % 6 == 5
         if parsed:
@@ -175,6 +275,8 @@ def multi_random(rng, tier):
                         fs.append({"share": list(rng.choice(src))})
                     else:
                         fs.append([k, rng.choice(vals), line])
+                        if odd and rng.random() < 0.5:
+                            fs[-1].append(rng.choice(ODD_KINDS))
                 ents.append({"type": rng.choice(["article", "Book", ""]), "key": rng.choice(["k", "ID", "a"]), "fields": fs,
                              "_keys": [f[0] if isinstance(f, list) else ents[f["share"][0]]["_keys"][f["share"][1]] for f in fs]})
             for e in ents:
@@ -183,7 +285,12 @@ def multi_random(rng, tier):
         steps = []
         for j in range(rng.randint(1, 25)):
             p = rng.random()
-            if p < 0.12 and ne < 4:
+            if odd and rng.random() < 0.12:
+                # the caller edits the list handed out by e.fields / assigns e.fields
+                how = rng.choice(["append", "insert", "replace", "del", "reverse", "assign"])
+                f = [rng.choice(pool + ["zz"]), rng.choice(vals), 300 + j] + ([rng.choice(ODD_KINDS)] if rng.random() < 0.5 else [])
+                steps.append(["edit", rng.randrange(ne), how, f if how in ("append", "insert", "replace") else rng.randrange(6)])
+            elif p < 0.12 and ne < 4:
                 steps.append(["twin", rng.randrange(ne)])
                 ne += 1
             elif p < 0.32 and ne > 1:
@@ -195,9 +302,13 @@ def multi_random(rng, tier):
                 op = mk_op(c, k, j)
                 if c in (O_SETFIELD, O_SETITEM) and rng.random() < 0.3:
                     op[2] = rng.choice(vals)
+                if odd and c == O_SETFIELD and rng.random() < 0.5:
+                    op.append(rng.choice(ODD_KINDS))
                 steps.append(["op", rng.randrange(ne), op])
         inp["steps"] = steps
-        cases.append({"stream": "multi-parsed" if parsed else "multi-random", "input": inp})
+        if odd:
+            inp["multi"] = "odd-" + inp["multi"]
+        cases.append({"stream": ("odd-" if odd else "multi-") + ("parsed" if parsed else "random"), "input": inp})
     return cases
 
 
@@ -550,6 +661,9 @@ class FieldLog:
         return None
 
 
+FIVE = ("the default handed to get",)
+
+
 def entry_vs_dict(e, ref, log, etype, ekey, Field, absent):
     """Everything entry e reports equals what its reference dict ref (key -> Field object) holds; None or a complaint."""
     fs = e.fields
@@ -569,14 +683,14 @@ def entry_vs_dict(e, ref, log, etype, ekey, Field, absent):
                                       for a, b in zip(its, wi)):
         return "items() %r, the mapping gives %r" % (its, wi)
     for k, w in ref.items():
-        if e.get(k) is not w or e.get(k, 5) is not w:
+        if e.get(k) is not w or e.get(k, FIVE) is not w:
             return "get(%r) returned %r, the mapping holds %r" % (k, e.get(k), log.content(w))
         if k not in e:
             return "%r in entry is false, the mapping holds %r" % (k, log.content(w))
         if not same_value(e[k], log.content(w)[1]):
             return "[%r] is %r, the mapping holds %r" % (k, e[k], log.content(w))
     for k in absent:
-        if k not in ref and (k in e or e.get(k) is not None or e.get(k, 5) != 5):
+        if k not in ref and (k in e or e.get(k) is not None or e.get(k, FIVE) is not FIVE or not same_value(e.get(k, 0), 0)):
             return "%r is reported present (get: %r), the mapping does not hold it" % (k, e.get(k))
     if e["ENTRYTYPE"] != etype or e["ID"] != ekey:
         return "ENTRYTYPE/ID lookups give %r/%r, the entry has %r/%r" % (e["ENTRYTYPE"], e["ID"], etype, ekey)
@@ -598,7 +712,7 @@ def impl_multi(case):
     else:
         built = []
         for st in inp["entries"]:
-            fs = [built[x["share"][0]][x["share"][1]] if isinstance(x, dict) else Field(x[0], unjv(x[1]), x[2]) for x in st["fields"]]
+            fs = [built[x["share"][0]][x["share"][1]] if isinstance(x, dict) else mk_field(x) for x in st["fields"]]
             built.append(list(fs))
             entries.append(Entry(st["type"], st["key"], fs, start_line=0, raw=None))
     refs, heads = [], []
@@ -611,7 +725,8 @@ def impl_multi(case):
         heads.append((e.entry_type, e.key))
     ok, detail = True, ""
     shared_hit = False
-    absent = sorted(set(POOL + ["zz"] + [st[2][1] if st[0] == "op" else st[3] for st in inp["steps"] if st[0] != "twin"]))
+    odd_hit = False          # an operation addressed a key bound to an object of a Field subclass / the caller edited e.fields
+    absent = sorted(set(POOL + ["zz"] + [st[2][1] if st[0] == "op" else st[3] for st in inp["steps"] if st[0] in ("op", "xfer")]))
     tags = ["multi", "multi:" + inp["multi"]]
 
     def fail(n, step, msg):
@@ -643,6 +758,40 @@ def impl_multi(case):
                     ok, detail = fail(n, step, "entry %d: set_field gave %r" % (t, r[-1]))
                     break
                 refs[t][k] = f
+        elif step[0] == "edit":
+            # the caller edits the list e.fields handed out (or assigns e.fields).  What such an edit does to the entry
+            # is not the property's business; that fields, fields_dict, items(), get, in and [] afterwards all describe
+            # the same fields - those e.fields shows - is: the reference dict is re-read from e.fields and compared below
+            t, how = step[1] % len(entries), step[2]
+            acted = t
+            e = entries[t]
+            fs = e.fields
+            if how in ("append", "insert"):
+                f = mk_field(step[3])
+                if f.key not in [x.key for x in fs] and f.key not in RESERVED:
+                    log.see(f, "put into the list e.fields by the caller in step %d" % n)
+                    fs.insert(len(fs) if how == "append" else 0, f)
+            elif how == "replace":          # fs[i] = a field with another key (or the same one), the length stays
+                f = mk_field(step[3])
+                i = f.start_line % len(fs) if fs else 0
+                if fs and f.key not in [x.key for x in fs[:i] + fs[i + 1:]] and f.key not in RESERVED:
+                    log.see(f, "put into the list e.fields by the caller in step %d" % n)
+                    fs[i] = f
+            elif how == "del":
+                if fs:
+                    del fs[step[3] % len(fs)]
+            elif how == "reverse":
+                fs.reverse()
+            else:
+                e.fields = fs[1:] + fs[:1]
+            now = e.fields
+            keys = [x.key for x in now] if isinstance(now, list) and all(isinstance(x, Field) for x in now) else None
+            if keys is None or len(set(keys)) != len(keys) or any(k in RESERVED for k in keys):
+                break          # outside the hypothesis of the property (distinct, non-reserved keys): nothing to say
+            for x in now:
+                log.see(x, "listed by e.fields after the caller's edit in step %d" % n)
+            refs[t] = {x.key: x for x in now}
+            odd_hit = True
         else:
             t, op = step[1] % len(entries), step[2]
             acted = t
@@ -651,8 +800,9 @@ def impl_multi(case):
             assert k not in RESERVED, "generator: reserved key"
             if code in MUTATORS:
                 shared_hit |= others_hold(t, k)
+            odd_hit |= k in ref and type(ref[k]) is not Field
             if code == O_SETFIELD:
-                f = Field(k, unjv(op[2]), op[3])
+                f = mk_field(op[1:])
                 log.see(f, "passed to set_field in step %d" % n)
                 r = implutil.guarded(lambda: e.set_field(f))
                 ref[k] = f
@@ -718,7 +868,11 @@ def impl_multi(case):
                 break
         # ---- after every step: every entry against its own dict, and every Field object ever seen against its content
         for j, e in enumerate(entries):
-            msg = entry_vs_dict(e, refs[j], log, heads[j][0], heads[j][1], Field, absent)
+            try:
+                msg = entry_vs_dict(e, refs[j], log, heads[j][0], heads[j][1], Field, absent)
+            except Exception as x:  # noqa: BLE001 - a read accessor that raises is a finding, not a harness error
+                msg = "a read accessor (fields, fields_dict, items, get, in, []) raised %s: %s; the mapping holds %r" % (
+                    type(x).__name__, x, [log.content(w)[:2] for w in refs[j].values()])
             if msg:
                 who = "entry %d" % j if j == acted else "entry %d (no operation was applied to it in this step)" % j
                 ok, detail = fail(n, step, who + ": " + msg)
@@ -731,7 +885,9 @@ def impl_multi(case):
             break
     if shared_hit:
         tags.append("multi:shared-key-written-or-removed")
-    return {"sx_in": None, "sx_out": None, "oracle": {"ok": ok, "detail": detail}, "nontrivial": bool(shared_hit),
+    if odd_hit:
+        tags.append("multi:key-bound-to-field-subclass-object-or-list-edited")
+    return {"sx_in": None, "sx_out": None, "oracle": {"ok": ok, "detail": detail}, "nontrivial": bool(shared_hit or odd_hit),
             "key": json.dumps(inp, sort_keys=True), "tags": tags,
             "summary": repr([[(f.key, f.value) for f in e.fields] for e in entries])[:200]}
 
